@@ -5,6 +5,7 @@ import (
 	"fmt"
 	"io/ioutil"
 	"os"
+	"strings"
 	"time"
 
 	"github.com/couchbase/moss"
@@ -109,6 +110,7 @@ type Session struct {
 	heldStore     moss.Snapshot
 	heldStoreExp  Content
 	heldStoreOpen bool
+	openErr       string
 	life  string
 	failWrites int32
 	flog  *FileLog
@@ -483,6 +485,10 @@ func (s *Session) Do(st Step) error {
 	case "Reopen":
 		s.coll, s.store = nil, nil
 		if err := s.Open(); err != nil {
+			if strings.HasPrefix(err.Error(), "OpenStoreCollection:") {
+				s.openErr = err.Error() // C04: reopening must succeed; reported by Observe
+				return nil
+			}
 			return err
 		}
 		s.refsBeforeReopen = s.refs
@@ -512,6 +518,11 @@ func (s *Session) pollStat(pred func(*moss.CollectionStats) bool) error {
 func (s *Session) Observe(idx int, st Step, full bool) StepResult {
 	r := StepResult{Step: idx, Act: st.Act}
 	exp := st.Exp
+	if s.openErr != "" {
+		r.Mismatches = append(r.Mismatches, Mismatch{What: "reopen.open", Got: s.openErr, Want: "reopen succeeds"})
+		r.Abort = true
+		return r
+	}
 	if s.heldStore != nil {
 		if s.heldStoreOpen { // first observation after the open: this is what the store held then
 			s.heldStoreOpen = false
